@@ -20,6 +20,9 @@ SPEC = {
         'ext_rdDExp', 'ext_rdSExp', 'ext_rdDModel', 'ext_rdSModel', 'ext_rdPD', 'ext_rdPS', 'ext_rdMPol', 'polLoop_mono', 'ext_polLoop', 'ext_rdPPol',
         'strict_prefix_fails', 'truncated_load_rejected', 'truncated_rejected_dexp', 'truncated_rejected_sexp', 'truncated_rejected_dmodel',
         'truncated_rejected_smodel', 'truncated_rejected_mpol', 'truncated_rejected_ppol', 'truncated_rejected_pd', 'truncated_rejected_ps',
+        # a junk token (abc, nan, inf ...) in place of any token of a written object: the load fails, for every kind
+        'tri_rdDExp', 'tri_rdSExp', 'tri_rdDModel', 'tri_rdSModel', 'tri_rdPD', 'tri_rdPS', 'tri_rdMPol', 'tri_polLoop', 'tri_rdPPol',
+        'junk_token_fails', 'corrupted_load_rejected', 'corrupted_rejected_ppol', 'corrupted_rejected_dmodel', 'corrupted_rejected_sexp',
         # bytes <-> tokens: any white-space layout tokenizes back to the token list; byte-level round trip
         'tokenize_render', 'roundtrip_bytes', 'printN_clean', 'wrDModel_clean', 'wrPPol_clean', 'truncated_bytes_rejected',
         # the fuel of the policy loop is immaterial (the model is the unbounded while(true))
